@@ -271,6 +271,7 @@ type simDev struct {
 	relaxed   bool
 	otaa      bool
 	joined    bool
+	warn      bool // key warning already stored
 	nonces    map[uint16]bool
 }
 
@@ -280,10 +281,10 @@ func mkDevice(d *simDev, fcntUp, fcntDn uint16) model.Device {
 		st = model.OverTheAirDevice
 	}
 	return model.Device{DeviceEUI: d.eui, AppEUI: d.app, DevAddr: protocol.DevAddrFromUint32(d.addr), AppKey: d.appKey, AppSKey: d.apps, NwkSKey: d.nwk,
-		State: st, FCntUp: fcntUp, FCntDn: fcntDn, RelaxedCounter: d.relaxed}
+		State: st, FCntUp: fcntUp, FCntDn: fcntDn, RelaxedCounter: d.relaxed, KeyWarning: d.warn}
 }
 
 func leanDev(d *simDev, up, dn uint16) string {
-	return fmt.Sprintf("pipe.dev eui=%s app=%s addr=%d appkey=%s nwk=%s apps=%s up=%d dn=%d relaxed=%s warn=0 nonces=-",
-		hx.H(d.eui.Octets[:]), hx.H(d.app.Octets[:]), d.addr, hx.H(d.appKey.Key[:]), hx.H(d.nwk.Key[:]), hx.H(d.apps.Key[:]), up, dn, b01(d.relaxed))
+	return fmt.Sprintf("pipe.dev eui=%s app=%s addr=%d appkey=%s nwk=%s apps=%s up=%d dn=%d relaxed=%s warn=%s nonces=-",
+		hx.H(d.eui.Octets[:]), hx.H(d.app.Octets[:]), d.addr, hx.H(d.appKey.Key[:]), hx.H(d.nwk.Key[:]), hx.H(d.apps.Key[:]), up, dn, b01(d.relaxed), b01(d.warn))
 }
